@@ -1,6 +1,7 @@
 package rules
 
 import (
+	"go/constant"
 	"fmt"
 	"go/token"
 	"go/types"
@@ -249,36 +250,55 @@ func c14Wiring(c *Ctx) {
 	if okRet == nil {
 		r.Undecided("R14-wiring", "fen.Decode result wiring", c.pos(decode.Pos()), "", "no successful return found")
 	} else {
-		var got []string
-		for _, v := range okRet.Results[:4] {
-			got = append(got, pathExpr(v))
+		// each result is computed from exactly its own FEN field, through the matching reader -
+		// whether the reading code sits in Decode or in a helper
+		type want struct {
+			what  string
+			v     ssa.Value
+			field int64
+			via   string
 		}
-		want := []string{"NewPosition(", "parseColor(", "Atoi(", "Atoi("}
-		idx := []string{"", "[1]", "[4]", "[5]"}
-		good := true
-		for i := range want {
-			if !strings.HasPrefix(got[i], want[i]) || !strings.Contains(got[i], idx[i]) {
-				good = false
+		var np *ssa.Call
+		{
+			v := returnedValue(okRet, 0)
+			if ex, ok := v.(*ssa.Extract); ok {
+				v = ex.Tuple
+			}
+			if call, ok := v.(*ssa.Call); ok && call.Call.StaticCallee() != nil && call.Call.StaticCallee().Name() == "NewPosition" {
+				np = call
 			}
 		}
-		// NewPosition(pieces, castling from [2], ep from [3])
-		if !(strings.Contains(got[0], "parseCastling(") && strings.Contains(got[0], "[2]")) {
-			good = false
+		ws := []want{
+			{"side to move", returnedValue(okRet, 1), 1, "parseColor"},
+			{"half-move clock", returnedValue(okRet, 2), 4, "Atoi"},
+			{"full-move number", returnedValue(okRet, 3), 5, "Atoi"},
 		}
-		r.Check(good, "R14-wiring", "fen.Decode result wiring", c.pos(okRet.Pos()), "", strings.Join(got, " | "))
-		// the e.p. square comes from field 4
-		epOK := false
-		for _, blk := range decode.Blocks {
-			for _, ins := range blk.Instrs {
-				if call, ok := ins.(*ssa.Call); ok && call.Call.StaticCallee() != nil && call.Call.StaticCallee().Name() == "ParseSquareStr" {
-					epOK = strings.Contains(pathExpr(call.Call.Args[0]), "[3]")
-				}
+		if np != nil && len(np.Call.Args) == 3 {
+			ws = append(ws, want{"castling rights", np.Call.Args[1], 2, "parseCastling"}, want{"e.p. square", np.Call.Args[2], 3, "ParseSquareStr"})
+		}
+		var bad []string
+		for _, w := range ws {
+			pv := c.provenance(decode, w.v)
+			if !pv.onlyField(w.field) || !pv.via(w.via) {
+				bad = append(bad, fmt.Sprintf("%s: expected field %d through %s, got %s", w.what, w.field+1, w.via, pv))
 			}
 		}
-		r.Check(epOK, "R14-wiring", "fen.Decode reads the e.p. square from field 4", c.pos(decode.Pos()), "", "")
+		if np == nil {
+			bad = append(bad, "the position result is not NewPosition's")
+		}
+		r.Check(len(bad) == 0, "R14-wiring", "fen.Decode result wiring", c.pos(okRet.Pos()), "", strings.Join(bad, "; "))
+		epOK := true
+		for _, x := range bad {
+			if strings.HasPrefix(x, "e.p. square") {
+				epOK = false
+			}
+		}
+		r.Check(epOK && np != nil, "R14-wiring", "fen.Decode reads the e.p. square from field 4", c.pos(decode.Pos()), "", "")
 	}
 	// Encode's Sprintf operands
 	var slots []string
+	var slotVals []ssa.Value
+	format := ""
 	for _, blk := range encode.Blocks {
 		for _, ins := range blk.Instrs {
 			call, ok := ins.(*ssa.Call)
@@ -289,27 +309,57 @@ func c14Wiring(c *Ctx) {
 			if sl, ok := call.Call.Args[1].(*ssa.Slice); ok {
 				if arr, ok := sl.X.(*ssa.Alloc); ok {
 					byIdx := map[int64]string{}
+					byIdxV := map[int64]ssa.Value{}
 					for _, ref := range *arr.Referrers() {
 						if ia, ok := ref.(*ssa.IndexAddr); ok {
 							i, _ := constInt(ia.Index)
 							for _, r2 := range *ia.Referrers() {
 								if st, ok := r2.(*ssa.Store); ok {
 									byIdx[i] = pathExpr(st.Val)
+									byIdxV[i] = st.Val
 								}
 							}
 						}
 					}
 					for i := int64(0); i < int64(len(byIdx)); i++ {
 						slots = append(slots, byIdx[i])
+						slotVals = append(slotVals, byIdxV[i])
+					}
+					if cs, ok := call.Call.Args[0].(*ssa.Const); ok && cs.Value != nil {
+						format = constant.StringVal(cs.Value)
 					}
 				}
 			}
 		}
 	}
-	p := encode.Params
-	good := len(slots) == 6 && strings.HasPrefix(slots[0], "String(") && slots[1] == "printColor("+p[1].Name()+")" &&
-		slots[2] == "printCastling(Castling("+p[0].Name()+"))" && strings.HasPrefix(slots[3], "phi:") && slots[4] == p[2].Name() && slots[5] == p[3].Name()
-	r.Check(good, "R14-wiring", "fen.Encode field order", c.pos(encode.Pos()), "", strings.Join(slots, " | "))
+	// the six fields, in order, each computed from the right parameter through the right printer -
+	// provenance, so inline code and helpers are the same
+	good := len(slots) == 6 && strings.Count(format, "%") == 6 && !strings.Contains(format, "[") && len(strings.Fields(format)) == 6
+	var ebad []string
+	if good {
+		type want struct {
+			what  string
+			param int
+			via   []string
+		}
+		ws := map[int]want{1: {"side to move", 1, []string{"printColor"}}, 2: {"castling", 0, []string{"printCastling", "Castling"}},
+			3: {"e.p. square", 0, []string{"EnPassant"}}, 4: {"half-move clock", 2, nil}, 5: {"full-move number", 3, nil}}
+		for i := 1; i < 6; i++ {
+			w := ws[i]
+			pv := c.provenance(encode, slotVals[i])
+			ok := pv.onlyParam(w.param)
+			for _, v := range w.via {
+				ok = ok && pv.via(v)
+			}
+			if !ok {
+				ebad = append(ebad, fmt.Sprintf("field %d (%s): expected parameter #%d through %v, got %s", i+1, w.what, w.param, w.via, pv))
+			}
+		}
+		if pv := c.provenance(encode, slotVals[0]); pv.Params[1] || pv.Params[2] || pv.Params[3] {
+			ebad = append(ebad, "field 1 (board) is computed from a clock/colour parameter")
+		}
+	}
+	r.Check(good && len(ebad) == 0, "R14-wiring", "fen.Encode field order", c.pos(encode.Pos()), "", joinNonEmpty(strings.Join(ebad, "; "), fmt.Sprintf("format %q, operands %s", format, strings.Join(slots, " | "))))
 
 	// Engine.Position / Engine.Reset / NewBoard / getters
 	if ep := c.fn("R14-wiring", "pkg/engine", "Engine", "Position"); ep != nil {
